@@ -102,6 +102,8 @@ def render(rnd, toks) -> str:
     for t in toks:
         if isinstance(t, Id):
             out.append(t.spell(rnd))
+        elif t[0] == "I":   # an object name that may also be written IDENTIFIER('<name>') (unquoted names, one-part references)
+            out.append(f"{recase(rnd, 'identifier')}('{recase(rnd, t[1].text)}')" if not t[1].quoted and rnd.random() < 0.4 else t[1].spell(rnd))
         elif t[0] == "k":
             out.append(recase(rnd, t[1]))
         elif t[0] == "v":
@@ -113,6 +115,10 @@ def render(rnd, toks) -> str:
 
 def k(s):
     return ("k", s)
+
+
+def I(i):
+    return ("I", i)
 
 
 def x(s):
@@ -167,27 +173,32 @@ class Script:
             lambda: [k("insert into"), t1, x("("), a, x(")"), k("select"), a, k("from"), t0, k("where"), c, x(">="), x("20")],
             lambda: [k("update"), t0, k("set"), c, x("="), c, x("+ 1"), k("where"), a, x("="), x(str(r.choice([1, 2, 9])))],
             lambda: [k("delete from"), t1, k("where"), a, x(">"), x(str(r.choice([2, 3, 100])))],
-            lambda: [k("truncate table"), t1],
-            lambda: [k("alter table"), t1, k("add column"), self.alias, k("int")],
+            lambda: [k("truncate table"), I(t1)],
+            lambda: [k("alter table"), I(t1), k("add column"), self.alias, k("int")],
             lambda: [k("alter table"), t1, k("drop column"), self.alias],
             lambda: [k("alter table"), t1, k("rename column"), b, k("to"), self.view],
             lambda: [k("alter table"), t1, k("rename column"), self.view, k("to"), b],
-            lambda: [k("create view"), self.view, k("as select"), a, x(","), b, k("from"), t0],
+            lambda: [k("create view"), I(self.view), k("as select"), a, x(","), b, k("from"), I(t0)],
             lambda: [k("create or replace view"), self.view, k("as select"), a, k("from"), t0],
             lambda: [k("select"), x("*"), k("from"), self.view, k("order by"), x("1")],
-            lambda: [k("drop view"), self.view],
-            lambda: [k("drop view if exists"), self.view],
-            lambda: [k("create table"), self.alias, k("as select"), a, x(","), b, k("from"), t0],
+            lambda: [k("drop view"), I(self.view)],
+            lambda: [k("drop view if exists"), I(self.view)],
+            lambda: [k("create table"), I(self.alias), k("as select"), a, x(","), b, k("from"), t0],
+            lambda: [k("create table"), I(self.alias), x("("), a, k("int"), x(","), b, k("varchar"), x("(5))")],
+            lambda: [k("insert into"), I(t1), x("("), a, x(")"), k("values"), x("(77)")],
+            lambda: [k("select"), a, k("from"), I(t0), k("order by"), a],
             lambda: [k("create or replace table"), self.alias, k("clone"), t0],
-            lambda: [k("drop table if exists"), self.alias],
+            lambda: [k("drop table if exists"), I(self.alias)],
+            lambda: [k("drop table"), I(self.alias)],
             lambda: [k("comment on table"), t0, k("is"), x("'A Comment'")],
-            lambda: [k("create schema"), self.schema2],
-            lambda: [k("create schema if not exists"), self.schema2],
+            lambda: [k("create schema"), I(self.schema2)],
+            lambda: [k("create schema if not exists"), I(self.schema2)],
             lambda: [k("use schema"), self.schema2],
             lambda: [k("use schema"), Id("s1", False)],
             lambda: [k("use schema"), Id("db1", False), x("."), self.schema2],
             lambda: [k("create table"), self.schema2, x("."), t0, x("("), a, k("int"), x(")")],
-            lambda: [k("drop schema"), self.schema2],
+            lambda: [k("drop schema"), I(self.schema2)],
+            lambda: [k("drop schema if exists"), I(Id("s1", False))],
             lambda: [k("create database"), self.db2],
             lambda: [k("use database"), self.db2],
             lambda: [k("use database"), Id("db1", False)],
@@ -341,8 +352,8 @@ def gen_names_case(rnd) -> dict:
             if i.norm_py.upper() not in used:
                 used.add(i.norm_py.upper())
                 return i
-    for name in ("t", "c1", "c2", "c3", "al", "v", "s", "d"):
-        ids[name] = fresh(0.0 if name in ("d",) else 0.4)
+    for name in ("t", "c1", "c2", "c3", "al", "v", "s", "d", "it", "isch"):
+        ids[name] = fresh(0.0 if name in ("d", "it", "isch") else 0.4)
     ids["conn_db"] = Id(gen_unquoted(rnd), False)
     ids["conn_schema"] = Id(gen_unquoted(rnd), False)
     spell = {n: (recase(rnd, i.text) if not i.quoted else '"' + i.text + '"') for n, i in ids.items()}
@@ -388,6 +399,21 @@ def run_names(case: dict) -> dict:
             ex(conn, f"use schema {rs['s']}")
             obs["use_schema"] = [conn.database, conn.schema]
             obs["drop_table"] = ex(conn, f"drop table {conn.database}.{case['spell']['conn_schema']}.{rs['t']}").fetchall()[0][0]
+            # object names written IDENTIFIER('<name>') / IDENTIFIER($var): reported folded like any unquoted name
+            obs["ident_create_table"] = ex(conn, f"create table identifier('{sp['it']}') (a int)").fetchall()[0][0]
+            obs["ident_star_desc"] = [d.name for d in ex(conn, f"select * from identifier('{rs['it']}')").description]
+            ex(conn, f"set nm = '{rs['it']}'")
+            obs["ident_drop_table"] = ex(conn, "drop table identifier($nm)").fetchall()[0][0]
+            obs["ident_create_schema"] = ex(conn, f"create schema identifier('{sp['isch']}')").fetchall()[0][0]
+            ex(conn, f"use schema {rs['isch']}")
+            obs["ident_use_schema"] = [conn.database, conn.schema]
+            obs["ident_drop_schema"] = ex(conn, f"drop schema identifier('{rs['isch']}')").fetchall()[0][0]
+            obs["ident_after_drop"] = [conn.database, conn.schema]
+            try:
+                ex(conn, "create table zz9 (a int)")
+                obs["ident_unqualified_after_drop"] = "ok"
+            except snowflake.connector.errors.ProgrammingError as e:
+                obs["ident_unqualified_after_drop"] = e.errno
             obs["create_database"] = ex(conn, f"create database {sp['d']}").fetchall()[0][0]
             ex(conn, f"use database {rs['d']}")
             obs["use_database"] = conn.database
@@ -558,6 +584,14 @@ def _check_names(chk, case, real, reply) -> None:
         "create_schema": f"Schema {N['s']} successfully created.",
         "use_schema": [N["conn_db"], N["s"]],
         "drop_table": f"{N['t']} successfully dropped.",
+        "ident_create_table": f"Table {N['it']} successfully created.",
+        "ident_star_desc": ["A"],
+        "ident_drop_table": f"{N['it']} successfully dropped.",
+        "ident_create_schema": f"Schema {N['isch']} successfully created.",
+        "ident_use_schema": [N["conn_db"], N["isch"]],
+        "ident_drop_schema": f"{N['isch']} successfully dropped.",
+        "ident_after_drop": [N["conn_db"], None],
+        "ident_unqualified_after_drop": 90106,
         "create_database": f"Database {N['d']} successfully created.",
         "use_database": N["d"],
     }
